@@ -97,7 +97,7 @@ def _one(ctx: Any, expected: Expected, case: Dict[str, Any], name: str) -> None:
         hists = copy.deepcopy(case["hists"])
         ws.write(hists)
         country = case["country"]
-        args = ["-m", case["method"]] + (["-f", case["from"]] if case.get("from") else []) + (["-t", case["to"]] if case.get("to") else [])
+        args = ["-m", case["method"]] + (["-f", case["from"]] if case.get("from") else []) + (["-t", case["to"]] if case.get("to") else []) + list(case.get("extra_args", []))
         res = ws.run(country, args, audit=False)
         ctx.count("executions")
         ctx.count("valid_cases")
@@ -116,7 +116,7 @@ def _one(ctx: Any, expected: Expected, case: Dict[str, Any], name: str) -> None:
             return
         from_d = date.fromisoformat(case["from"]) if case.get("from") else None
         to_d = date.fromisoformat(case["to"]) if case.get("to") else None
-        computed = expected.compute(ws.ini, ws.ods, country, {1970: case["method"]}, from_d, to_d)
+        computed = expected.compute(ws.ini, ws.ods, country, {1970: case["method"]}, from_d, to_d, allow_negative="-n" in case.get("extra_args", []))
         date_format = "%m/%d/%Y" if country == "us" else "%Y/%m/%d"
         expected_by_sheet: Dict[str, List[Tuple[Any, ...]]] = {}
         for asset in sorted(computed):
@@ -209,7 +209,17 @@ def run_shard(ctx: Any) -> None:
         if ctx.expired():
             break
         index = ctx.shard + i * ctx.nshards
-        _one(ctx, expected, make_case(ctx.rng("case", index), index), f"c14-{index}")
+        case = make_case(ctx.rng("case", index), index)
+        if index % 8 == 6:
+            # one of the repository's own example inputs (run with -n: most of them overdraw an account)
+            from rpv.checks.fullreport_common import corpus_case
+
+            shipped = corpus_case(ctx.rng("corpus", index), index // 8)
+            if shipped is not None:
+                country = "us" if (index // 8) % 2 == 0 else "ie"
+                case = {"corpus": shipped["corpus"], "hists": shipped["hists"], "country": country, "method": shipped["schedule"].get("1970", "fifo") if country == "us" and len(shipped["schedule"]) == 1 else "fifo", "from": shipped["from"], "to": shipped["to"], "extra_args": ["-n"]}
+                ctx.count("shipped_example_input_cases")
+        _one(ctx, expected, case, f"c14-{index}")
 
 
 def replay(ctx: Any, case: Dict[str, Any]) -> None:
